@@ -17,6 +17,7 @@ import (
 	"sort"
 	"strconv"
 	"strings"
+	"sync"
 	"time"
 
 	"k8s.io/apimachinery/pkg/api/resource"
@@ -46,10 +47,22 @@ type Result struct {
 }
 
 type state struct {
+	mu     sync.Mutex
 	inputs map[string]any
 	counts map[string]int
 	res    *Result
 	reach  map[string]bool
+	gid    string // goroutine that runs the harness
+}
+
+func goid() string {
+	buf := make([]byte, 64)
+	n := runtime.Stack(buf, false)
+	f := strings.Fields(string(buf[:n]))
+	if len(f) >= 2 {
+		return f[1]
+	}
+	return ""
 }
 
 var cur *state
@@ -61,6 +74,8 @@ func next(label string) (string, any, bool) {
 	if cur == nil {
 		panic("verifrt: used outside a replay")
 	}
+	cur.mu.Lock()
+	defer cur.mu.Unlock()
 	k := cur.counts[label]
 	cur.counts[label] = k + 1
 	name := fmt.Sprintf("%s#%d", label, k)
@@ -218,11 +233,25 @@ func Assume(c bool) {
 	}
 }
 
+// Assert records the first failing assertion and stops the goroutine that hit it: by a panic caught by the
+// runner on the harness goroutine, by runtime.Goexit on goroutines the code under test started itself.
 func Assert(c bool, msg string) {
-	cur.res.Asserts++
-	if !c {
+	st := cur
+	st.mu.Lock()
+	st.res.Asserts++
+	if c {
+		st.mu.Unlock()
+		return
+	}
+	if !st.res.Failed {
+		st.res.Failed = true
+		st.res.FailMsg = msg
+	}
+	st.mu.Unlock()
+	if goid() == st.gid {
 		panic(assertFailed{msg})
 	}
+	runtime.Goexit()
 }
 
 func Reach(label string) { cur.reach[label] = true }
@@ -307,7 +336,7 @@ func RunReplay(t T, harnesses map[string]func()) {
 
 func runCase(c Case, h func()) (res Result) {
 	res = Result{ID: c.ID, Harness: c.Harness, Ran: true}
-	cur = &state{inputs: c.Inputs, counts: map[string]int{}, res: &res, reach: map[string]bool{}}
+	cur = &state{inputs: c.Inputs, counts: map[string]int{}, res: &res, reach: map[string]bool{}, gid: goid()}
 	defer func() {
 		for r := range cur.reach {
 			res.Reach = append(res.Reach, r)
